@@ -14,6 +14,9 @@ use vh::rt::*;
 struct St {
     words: Vec<usize>,
     len: usize,
+    /// capacity of the backing Vec (not observable through the property, but part of the state the
+    /// code branches on: dropping it would merge states with different futures under a defective resize)
+    cap: usize,
     model: Vec<bool>,
 }
 
@@ -45,7 +48,9 @@ enum Op {
 }
 
 fn real(s: &St) -> BitVec<Vec<usize>> {
-    unsafe { BitVec::from_raw_parts(s.words.clone(), s.len) }
+    let mut w = Vec::with_capacity(s.cap.max(s.words.len()));
+    w.extend_from_slice(&s.words);
+    unsafe { BitVec::from_raw_parts(w, s.len) }
 }
 
 fn idxs(len: usize) -> Vec<usize> {
@@ -442,7 +447,8 @@ fn step(prop: &str, s: &St, op: &Op, viol: &mut Vec<Viol>) -> Option<St> {
             viol.push((format!("{prop}|{}|storage-shrunk", site(op)), format!("{} -> {} words", s.words.len(), w.len())));
         }
     }
-    Some(St { words: w, len: l, model })
+    let cap = w.capacity();
+    Some(St { words: w, len: l, cap, model })
 }
 
 fn pattern(n: usize, salt: u64) -> Vec<bool> {
@@ -451,7 +457,8 @@ fn pattern(n: usize, salt: u64) -> Vec<bool> {
 
 fn from_real(b: BitVec) -> St {
     let (w, l) = b.into_raw_parts();
-    St { words: w, len: l, model: vec![] }
+    let cap = w.capacity();
+    St { words: w, len: l, cap, model: vec![] }
 }
 
 fn seeds(prop: &str, thorough: bool) -> Vec<(String, St)> {
@@ -517,7 +524,7 @@ fn seeds(prop: &str, thorough: bool) -> Vec<(String, St)> {
                     if spare == 0 && n % 64 == 0 && g > 0 {
                         continue; // no room for garbage: same as clean
                     }
-                    v.push((format!("from_raw_parts(len={n}, spare_words={spare}, garbage_kind={g})"), St { words: w, len: n, model: p.clone() }));
+                    v.push((format!("from_raw_parts(len={n}, spare_words={spare}, garbage_kind={g})"), St { cap: w.capacity(), words: w, len: n, model: p.clone() }));
                 }
             }
         }
@@ -578,7 +585,7 @@ fn main() {
                 start,
                 depth - 1,
                 max_states,
-                |s: &St| (s.words.clone(), s.len),
+                |s: &St| (s.words.clone(), s.len, s.cap),
                 ops,
                 move |s, o, v| step(&p, s, o, v),
                 move |s, v| observe(&p2, s, v),
